@@ -340,3 +340,45 @@ package calc
 //@   property C02
 //@   option safety off
 //@   ghost at call Add: check arg0 == old(buf.sentRoutes) && arg1 == id
+
+//@ -- C02, removals: every removal told to the dataplane also strikes the object off the set of things the dataplane
+//@ -- has ("sent"), for every kind of object - otherwise a later add-then-remove inside one batch would emit a
+//@ -- removal of something the dataplane lacks.  (Loop bodies of the range-over-func loops; thin: the call on the
+//@ -- sent set is required on every path, the set container itself is not modelled.)
+//@ ghost c02Struck bool
+//@ func (*EventSequencer).flushEndpointTierDeletes$1
+//@   property C02
+//@   option safety off
+//@   requires !c02Struck
+//@   ghost at call Discard: c02Struck = c02Struck || (arg0 == old((*buf).sentEndpoints) && arg1 == item)
+//@   ensures c02Struck
+//@ func (*EventSequencer).flushPolicyDeletes$1
+//@   property C02
+//@   option safety off
+//@   requires !c02Struck
+//@   ghost at call Discard: c02Struck = c02Struck || (arg0 == old((*buf).sentPolicies) && arg1 == item)
+//@   ensures c02Struck
+//@ func (*EventSequencer).flushProfileDeletes$1
+//@   property C02
+//@   option safety off
+//@   requires !c02Struck
+//@   ghost at call Discard: c02Struck = c02Struck || (arg0 == old((*buf).sentProfiles) && arg1 == item)
+//@   ensures c02Struck
+//@ func (*EventSequencer).flushRemovedIPSets$1
+//@   property C02
+//@   option safety off
+//@   requires !c02Struck
+//@   ghost at call Discard: c02Struck = c02Struck || (arg0 == old((*buf).sentIPSets) && arg1 == setID)
+//@   ensures c02Struck
+//@ func (*EventSequencer).flushVTEPRemoves$1
+//@   property C02
+//@   option safety off
+//@   requires !c02Struck
+//@   ghost at call Discard: c02Struck = c02Struck || (arg0 == old((*buf).sentVTEPs) && arg1 == node)
+//@   ensures c02Struck
+//@ func (*EventSequencer).flushRouteRemoves$1
+//@   property C02
+//@   option safety off
+//@   requires !c02Struck
+//@   ghost at call Discard: c02Struck = c02Struck || (arg0 == old((*buf).sentRoutes) && arg1 == id)
+//@   ensures c02Struck
